@@ -410,13 +410,17 @@ func genHeap(r *lib.Rng, target, nops int) {
 			return hop{}, false
 		}
 		x := r.Intn(100)
+		pPush, pPop, pRem := 20, 50, 70 // at or above the target size: shrink
+		if n < target {
+			pPush, pPop, pRem = 50, 65, 80
+		}
 		switch {
-		case n == 0 || (n < target && x < 55) || x < 20:
+		case n == 0 || x < pPush:
 			next++
 			return hop{kind: 0, key: next, val: val()}, true
-		case x < 50:
+		case x < pPop:
 			return hop{kind: 1}, true
-		case x < 70:
+		case x < pRem:
 			return hop{kind: 2, idx: int64(r.Intn(n))}, true
 		default:
 			return hop{kind: 3, idx: int64(r.Intn(n)), val: val()}, true
